@@ -5,6 +5,8 @@ package rcmon
 import (
 	"encoding/json"
 	"fmt"
+	"runtime"
+	"runtime/debug"
 	"strconv"
 	"sync"
 	"time"
@@ -67,13 +69,35 @@ type JobResult struct {
 	ErrKind  string         // "go2wa" "build" "engine"
 	Cases    [][]CallResult // [case][mode]
 	Hung     bool           // a case hit the watchdog: later cases are "skipped", the worker must be retired
+	Recycle  bool           // the worker served enough jobs: the pool replaces it (bounds its memory)
 	TimingMs map[string]int64
 	// totals over all instances: proof that the instrumentation saw traffic
 	NMalloc, NFree, NRetain, NRelease int64
 }
 
+// Memory discipline of a worker: the Go heap is kept small during compilation (default GC percent),
+// compiler garbage is collected before the module instances (64 MiB linear memory each) are
+// made, everything is closed, collected and returned to the OS at the end of a job, and the
+// worker asks to be replaced after recycleAfter jobs.
+const recycleAfter = 6
+
+var jobsServed int
+
 // HandleJob is the worker entry point.
 func HandleJob(raw json.RawMessage) interface{} {
+	debug.SetGCPercent(100)
+	res := handleJob(raw)
+	runtime.GC()
+	debug.FreeOSMemory()
+	jobsServed++
+	if jr, ok := res.(JobResult); ok && jobsServed >= recycleAfter {
+		jr.Recycle = true
+		return jr
+	}
+	return res
+}
+
+func handleJob(raw json.RawMessage) interface{} {
 	var j Job
 	if err := json.Unmarshal(raw, &j); err != nil {
 		return JobResult{Err: err.Error(), ErrKind: "harness"}
@@ -90,6 +114,8 @@ func HandleJob(raw json.RawMessage) interface{} {
 	if err != nil {
 		return JobResult{Err: err.Error(), ErrKind: "build"}
 	}
+	wa, j.Src = "", ""
+	runtime.GC() // the compiler's garbage goes before the linear memories come
 	lap("build")
 	out := JobResult{TimingMs: tm}
 	p, err := NewProgram("batch.wa", wasm, fset)
@@ -194,11 +220,11 @@ type Runner struct {
 	Programs, UnreproducedHangs       int
 }
 
-// InstallRetire makes the pool kill workers that reported a hang.
+// InstallRetire makes the pool kill workers that reported a hang or ask to be recycled.
 func InstallRetire(p *mc.Pool) {
 	p.Retire = func(out json.RawMessage) bool {
-		var h struct{ Hung bool }
-		return json.Unmarshal(out, &h) == nil && h.Hung
+		var h struct{ Hung, Recycle bool }
+		return json.Unmarshal(out, &h) == nil && (h.Hung || h.Recycle)
 	}
 }
 
